@@ -499,6 +499,15 @@ def lemma_fiemap_call(ctx):
     eng = ctx.engine("libfs", loop_bound=2)
     install_log_off(eng)
     _ioctl(eng)
+    # descriptor accounting (C20): a duplicate made for the query must be closed again before the call returns
+    def s_try_clone(eng, st, callee, args, dty):
+        f = deref_ref(eng, st, args[0])
+        d = OpaqueV("std::fs::File", getattr(f, "name", "?"), {"dup": True})
+        return [Outcome(ok(d), events=[Event("fd_open", [getattr(f, "name", "?")], None)]), Outcome(err("std::io::Error"), events=[Event("try_clone", [], "err")])]
+    eng.add_summary(r"^(std::fs::)?File::try_clone$", s_try_clone, front=True)
+    eng.add_summary(r"^<(std::fs::)?File as (std::os::fd::|std::os::unix::io::)?IntoRawFd>::into_raw_fd$",
+                    lambda e, st, c, a, d: Outcome(OpaqueV("RawFd", "fd_of_" + getattr(a[0], "name", "?")), events=[Event("fd_leak", [getattr(a[0], "name", "?")], None)]), front=True)
+    eng.add_drop_hook(r"^(std::fs::)?File$", lambda e, st, v: st.trace.append(Event("fd_close", [getattr(v, "name", "?")], None)) if isinstance(v, OpaqueV) and v.attrs.get("dup") else None)
     fn = fn_named(eng.funcs, "fiemap")
     st = State()
     paths = eng.run(fn.name, [RefV(Cell(OpaqueV("std::fs::File", "infd"))), RefV(Cell(OpaqueV("FiemapReq", "req")))], st)
@@ -510,6 +519,15 @@ def lemma_fiemap_call(ctx):
             continue
         io = [e for e in p.trace if e.name == "ioctl"]
         en = [e for e in p.trace if e.name == "errno"]
+        opened = len([e for e in p.trace if e.name == "fd_open"])
+        closed = len([e for e in p.trace if e.name == "fd_close"])
+        leaked = [e for e in p.trace if e.name == "fd_leak"]
+        (ctx.fail if leaked or opened != closed else ctx.passed)(
+            "C20: an extent-map query leaves no descriptor behind (one leaked per call would make open files grow with the number of sparse files)",
+            "opened %d, closed %d, ownership given up %d: %s" % (opened, closed, len(leaked), trace_names(p)))
+        if any(is_errev(e) and e.name == "try_clone" for e in p.trace):
+            (ctx.passed if is_err(p.ret) else ctx.fail)("C04: a failed descriptor duplication makes fiemap fail", str(trace_names(p)))
+            continue
         if len(io) != 1 or getattr(io[0].args[0], "name", "") != "fd_of_infd":
             ctx.fail("C19: one FS_IOC_FIEMAP request on the file being mapped", str(trace_names(p)))
             continue
